@@ -8,7 +8,7 @@ type txn struct {
 	connID   int
 	explicit bool
 	failed   bool
-	ddl      bool // performed schema changes
+	ddl      bool            // performed schema changes
 	undo     []undoRec       // records of all successfully completed statements
 	changed  map[string]bool // tables whose rows or schema this transaction changed
 	done     chan struct{}   // closed when the transaction ends
